@@ -28,6 +28,12 @@ def ll_family(rep, tier, enforced, mode="jit"):
             rep.violation("likelihood_function_raised", {"n": c["n"], "result": r}, r["error"])
             continue
         recs += drv_metrics.ll_records(c, r)
+    ocases = drv_metrics.llobs_cases(rng, 16 if tier == "quick" else 160)
+    for c, r in zip(ocases, modes.run_cases(ocases, mode)):
+        if "error" in r:
+            rep.violation("likelihood_function_raised", {"n": c["n"], "result": r}, r["error"])
+            continue
+        recs += drv_metrics.llobs_records(c, r)
     return validate(rep, recs, enforced, "ll")
 
 
@@ -99,5 +105,8 @@ def floor_family(rep, tier, enforced):
     rng = random.Random(common.seed() * 7007 + 3)
     jobs = [(n, eps, how, rng.randrange(1 << 30)) for n in (1, 2, 3, 4) for eps in (0, 1, 2, 3)
             for how in ("copy", "inplace", "reconstruct") for _ in range(2 if tier == "quick" else 40)]
+    # the same at floors of 2^-40 .. 2^-80 (far below machine epsilon: a floor is a floor however small)
+    jobs += [(n, eps, how, rng.randrange(1 << 30), sh) for n in (2, 3) for eps in (1, 2, 3) for sh in (40, 60, 80)
+             for how in ("copy", "inplace", "reconstruct") for _ in range(1 if tier == "quick" else 8)]
     recs = common.pmap_chunked(drv_metrics.floor_job, jobs, chunk=8)
     return validate(rep, recs, enforced, "floor")
